@@ -162,7 +162,7 @@ def discover():
 
 OPERATORS = ["__add__", "__sub__", "__mul__", "__truediv__", "__pow__", "__matmul__",
              "__and__", "__or__", "__xor__", "__rshift__", "__neg__", "__radd__",
-             "__rmul__", "__rsub__", "__rtruediv__"]
+             "__rmul__", "__rsub__", "__rtruediv__", "__abs__", "__pos__"]
 READONLY = ["copy", "contract", "to_dense", "norm", "overlap", "select", "partition",
             "partition_tensors", "select_tensors", "outer_inds", "inner_inds", "H",
             "trace", "distance", "aslinearoperator", "make_norm", "make_overlap",
@@ -236,7 +236,7 @@ def install(rec):
         except Exception as e:  # noqa
             rec.note("install_failed:" + cls.__name__ + "." + name)
     from quimb.tensor import tensor_core as tc
-    for cls in (tc.Tensor, tc.TensorNetwork):
+    for cls in classes:
         for op in OPERATORS:
             if op in vars(cls):
                 try:
@@ -854,6 +854,16 @@ def wl_pairs_mps(rng, rec, tier):
     y = qtn.MPS_rand_state(L, 2, seed=int(rng.integers(1 << 30)))
     for f in (lambda: x + y, lambda: x - y, lambda: x * 2.0, lambda: x / 2.0, lambda: -x,
               lambda: x.H @ y, lambda: x & y.reindex_sites("q{}"), lambda: x ^ all, lambda: 3 * x):
+        gen.attempt(f)
+    # operands that share their bond names with the receiver (a copy, a
+    # re-scaled copy, the object itself), also with different stored exponents
+    z = x.copy()
+    if rng.random() < 0.5:
+        z.exponent = float(x.exponent) + 1.0
+    w = x.copy()
+    w.multiply_(0.5, spread_over=1)
+    for f in (lambda: x - z, lambda: x + z, lambda: x - x, lambda: x + x, lambda: x - w,
+              lambda: x.add_MPS(z), lambda: z - x):
         gen.attempt(f)
     return {"L": L, "methods": names}
 
